@@ -102,22 +102,40 @@ Conflict(reads, writes, a, b) ==
   \/ reads[a] \cap writes[b] # {}
 
 ConflictPairs(n, reads, writes) ==
-  { p \in (1..n) \X (1..n) : p[1] # p[2] /\ Conflict(reads, writes, p[1], p[2]) }
+  LET A == { f \in 1..n : writes[f] # {} \/ reads[f] # {} }     \* only functions that declare something can conflict
+  IN  { p \in A \X A : p[1] # p[2] /\ Conflict(reads, writes, p[1], p[2]) }
 
 (***************************************************************************)
 (* Ranks: number of edges on the longest chain of (user) edges ending at a  *)
 (* node. Defined by levels: rank >= k iff some predecessor has rank >= k-1. *)
 (***************************************************************************)
-LongestChain(n, E) ==
-  LET AtLeast[k \in 0..n] ==          \* nodes with a chain of >= k edges ending there
-        IF k = 0 THEN 1..n
-        ELSE LET prev == AtLeast[k-1] IN { b \in 1..n : \E a \in prev : <<a, b>> \in E }
-      \* levels as one explicit sequence, so that each is computed once
+LongestChainLevels(n, E) ==
+  LET SM == [a \in 1..n |-> { b \in 1..n : <<a, b>> \in E }]
+      \* levels as one explicit sequence, so that each is computed once:
+      \* L[k+1] = nodes with a chain of >= k edges ending there = successors of L[k]
       Lv[k \in 0..n] == IF k = 0 THEN <<1..n>>
                         ELSE LET p == Lv[k-1] IN
-                             Append(p, { b \in 1..n : \E a \in p[k] : <<a, b>> \in E })
-      L == Lv[n]                                   \* L[k+1] = nodes with a chain of >= k edges
+                             Append(p, UNION { SM[a] : a \in p[k] })
+      L == Lv[n]
   IN  [ f \in 1..n |-> CHOOSE k \in 0..n : f \in L[k+1] /\ (k = n \/ f \notin L[k+2]) ]
+
+(* the same for an acyclic E, in one pass over a source-first order: 0 without predecessors, otherwise one    *)
+(* more than the largest value among the predecessors                                                        *)
+LongestChainDag(n, E, order) ==
+  LET PM == [f \in 1..n |-> Preds(E, f)]
+      F[k \in 0..n] ==
+        IF k = 0 THEN [f \in {} |-> 0]
+        ELSE LET prev == F[k-1]
+                 f    == order[k]
+                 vals == { prev[p] : p \in PM[f] }
+                 r    == IF vals = {} THEN 0 ELSE 1 + (CHOOSE m \in vals : \A x \in vals : x <= m)
+             IN  [g \in (DOMAIN prev) \cup {f} |-> IF g = f THEN r ELSE prev[g]]
+  IN F[n]
+
+LongestChain(n, E) ==
+  IF n <= 12 THEN LongestChainLevels(n, E)
+  ELSE LET order == KahnOrder(n, E) IN
+       IF Len(order) = n THEN LongestChainDag(n, E, order) ELSE LongestChainLevels(n, E)
 
 (* a is ordered before b by rank, then by insertion index *)
 Before(rank, a, b) == rank[a] < rank[b] \/ (rank[a] = rank[b] /\ a < b)
